@@ -141,7 +141,7 @@ func batchSlotSaveRules(c *Ctx) {
 func loaderGateRules(c *Ctx, rule string) {
 	c.Rule(rule, "MustPass")
 	if fn := c.Need("isaac/database.loadTemp"); fn != nil {
-		tmp := "isaacdatabase.NewTempLeveldbFromPrefix(st, append(↺, var:varargs[:])[ι], encs, enc)"
+		tmp := "isaacdatabase.NewTempLeveldbFromPrefix(st, var:prefixes[ι], encs, enc)"
 		var foundPhi *ssa.Phi
 		for _, r := range Returns(fn) {
 			if phi, ok := RetVal(r, 0).(*ssa.Phi); ok {
@@ -164,7 +164,7 @@ func loaderGateRules(c *Ctx, rule string) {
 		ul := "(ι < len(φ(append(↺, var:varargs[:])|nil|↺)))"
 		c.ForEach(fn, "each unusable prefix removed", ul, 1, GOkTo("storage/leveldb.RemoveByPrefix"))
 		c.MP(fn, "success only after the unusable prefixes were removed", c.SuccessReturns(fn), 1,
-			GLoopDone(ul), GCmp("len(φ(append(↺, var:varargs[:])|nil|↺))", "<=", "0"), GCmp("len(append(↺, var:varargs[:]))", "<", "1"))
+			GLoopDone(ul), GCmp("len(φ(append(↺, var:varargs[:])|nil|↺))", "<=", "0"), GCmp("len(var:prefixes)", "<", "1"))
 	}
 	if fn := c.Need("isaac/database.(*TempLeveldb).isMerged"); fn != nil {
 		c.Exists(fn, "merged test is the existence of the marker of this height", c.ReturnsD(fn, 0, "*.Exists(isaacdatabase.leveldbTempMergedKey(db.Height()))#0"), 1)
